@@ -679,6 +679,10 @@ def _gi_samples():
         for (name, M), st, dt in itertools.product(rel.items(), ((16, 16), (25, 64)), ((20, 20), (7, 50))):
             dst = GeoBox((40, 50), src.affine * M, src.crs)
             yield dict(self=GeoboxTiles(dst, dt), src=GeoboxTiles(src, st), kind=name)
+        # the SAME pixel grid tiled twice with different interior cuts (equal shape, tile count and first tile)
+        ny_, nx_ = src.shape
+        for (ya, yb), (xa, xb) in ((((16, 30, ny_ - 46), (16, 20, ny_ - 36)), ((nx_,), (nx_,))), (((ny_,), (ny_,)), ((10, 34, nx_ - 44), (10, 14, nx_ - 24))), (((16, 30, ny_ - 46), (16, 20, ny_ - 36)), ((10, 34, nx_ - 44), (10, 14, nx_ - 24)))):
+            yield dict(self=GeoboxTiles(src, (yb, xb)), src=GeoboxTiles(src, (ya, xa)), kind="same-grid-different-cuts")
         for crs, res in (("EPSG:4326", 0.0002), ("EPSG:3857", 20.0)):
             ext = src.extent.to_crs(crs).boundingbox
             w, h = ext.span_x, ext.span_y
@@ -693,7 +697,7 @@ def _gi_samples():
         for oname, sg in (("north_up", coarse), ("flipx", coarse.flipx()), ("flipy", coarse.flipy()), ("rot180", coarse.flipx().flipy())):
             yield dict(self=GeoboxTiles(fine, (32, 32)), src=GeoboxTiles(sg, (5, 5)), kind=f"coarse-src-{oname}")
 
-    return "44 same-CRS pairs (aligned, sub-pixel, scaled, rotated, mirrored + sub-pixel, mirrored + x1.3, touching, overhanging the source by whole tiles on the left / top, disjoint) x 2x2 tilings + 6 cross-CRS pairs (overlapping, partly, disjoint) + 4 coarse-source / fine-destination cross-CRS pairs (source north-up, mirrored in x, in y, both)", gen()
+    return "44 same-CRS pairs (aligned, sub-pixel, scaled, rotated, mirrored + sub-pixel, mirrored + x1.3, touching, overhanging the source by whole tiles on the left / top, disjoint) x 2x2 tilings + 3 pairs of variable-sized tilings of one grid with different interior cuts + 6 cross-CRS pairs (overlapping, partly, disjoint) + 4 coarse-source / fine-destination cross-CRS pairs (source north-up, mirrored in x, in y, both)", gen()
 
 
 def _gi_post(self, src, kind, result):
